@@ -596,6 +596,12 @@ def class_pairs():
                                    ("element of a literal", "int[]", "string s = {1, 2}[0];", "int s = {1, 2}[0];")]:
         good = (al % ("int[]", good_s)) if good_s is not None else (al % ("int[]", ""))
         P.append(("an array literal's type taken for any type", pos, al % (rt, bad_s), good))
+    # super.m() runs the base version: a body-less (abstract) method has none
+    sm = ("abstract class S { public constructor() -> S = default; public virtual function m() -> int%s }\n"
+          "class D extends S { public constructor() -> D = default; public override function m() -> int { return %s + 10; } }\n"
+          "function main() -> void { S s = new D(); echo(s.m()); }")
+    P.append(("super call of a method without a body", "override", sm % (";", "super.m()"), sm % (" { return 1; }", "super.m()")))
+    P.append(("super call of a method without a body", "nested in an argument", sm % (";", "(0 * super.m())"), sm % (";", "0")))
     # inside a generic class only a value of type T is a T (T may stand for string, or for a subclass of its bound)
     tp = ("class Foo { public constructor() -> Foo = default; }\nclass Sub extends Foo { public constructor() -> Sub = default; }\n"
           "class Box<T%s> { public T v; public constructor(T v) -> Box<T> { this.v = v; return this; }\n"
